@@ -161,6 +161,12 @@ Theorem C10_entrypoints_ord_flags : forall e dt f pads i,
 Proof. exact entrypoints_ord_flags. Qed.
 Print Assumptions C10_entrypoints_ord_flags.
 
+Theorem C10_entrypoints_ord_get : forall dt pads i,
+  wf_ord i = true -> wf_pad pads = true -> type_validator COrd dt = true ->
+  get_parsed_instance_model dt (mkFlags false false) (restyle pads (ord_write i)) = Ok (IOrd (OrdIO.sorted_view i)).
+Proof. exact entrypoints_ord_get. Qed.
+Print Assumptions C10_entrypoints_ord_get.
+
 (* matching (weights as tokens; wf_tok = wf_core of C09 + every token non-empty, without comma and whitespace):
    the instance that C09's round trip describes (reparsed: same edges and weights, isolated nodes dropped) *)
 Theorem C10_entrypoints_wmd : forall e pads i,
@@ -175,6 +181,13 @@ Theorem C10_entrypoints_wmd_flags : forall e dt f pads i,
   parse_entry e CWmd dt f (restyle pads (wmd_write_tok i)) = parse_file_model CWmd dt f (wmd_write_tok i).
 Proof. exact entrypoints_wmd_flags. Qed.
 Print Assumptions C10_entrypoints_wmd_flags.
+
+Theorem C10_entrypoints_wmd_get : forall pads i,
+  Proofs.WmdIO.wf_tok i -> wf_pad pads = true ->
+  get_parsed_instance_model (lit "wmd") (mkFlags false false) (restyle pads (wmd_write_tok i)) =
+  Ok (IWmd (Proofs.WmdIO.reparsed text i)).
+Proof. exact entrypoints_wmd_get. Qed.
+Print Assumptions C10_entrypoints_wmd_get.
 
 (* categorical - PARTIAL: stated relative to parse_file on the canonical file, because the round-trip theorem of
    C08 (cat_parse (readlines (cat_write i)) = Ok (sorted_view i)) was not finished when this package was built.
@@ -205,6 +218,23 @@ Theorem C10_header_only : forall c dt ac ls i,
             (ac = false -> header_agrees h i).
 Proof. exact header_only_proof. Qed.
 Print Assumptions C10_header_only.
+
+(* through every entry point and every restyling, relative to the full parse of the canonical text (any class, any
+   text made of proper lines) *)
+Theorem C10_header_only_restyled : forall e c dt pads ls i,
+  wf_pad pads = true -> Forall line_ok ls ->
+  parse_file_model c dt (mkFlags false false) (unlines ls) = Ok i ->
+  exists h, parse_entry e c dt (mkFlags false true) (restyle pads (unlines ls)) = Ok h /\
+            inst_empty h = true /\ header_agrees h i.
+Proof. exact header_only_restyled_proof. Qed.
+Print Assumptions C10_header_only_restyled.
+
+(* written ordinal files: the header part of the instance that was written (all counts as declared) *)
+Theorem C10_header_only_ord : forall e dt pads i,
+  wf_ord i = true -> wf_pad pads = true -> type_validator COrd dt = true ->
+  parse_entry e COrd dt (mkFlags false true) (restyle pads (ord_write i)) = Ok (header_of (IOrd (OrdIO.sorted_view i))).
+Proof. exact header_only_ord. Qed.
+Print Assumptions C10_header_only_ord.
 
 Theorem C10_header_only_wmd : forall e pads i,
   Proofs.WmdIO.wf_tok i -> wf_pad pads = true ->
